@@ -257,7 +257,7 @@ MC_FOR = {
 # instances still provide the behaviours that are replayed into the code)
 OWN = {
     'C01': ['Inv_C01_', 'Prop_C01_'], 'C02': ['Inv_C02_'], 'C03': ['Inv_C03_'], 'C06': ['Inv_C06_'],
-    'C07': ['Inv_C07_', 'Prop_C07_', 'OnlyKnownFaults'], 'C08': ['Inv_C08_'], 'C09': ['OnlyKnownFaults'], 'C10': ['Inv_C10_'],
+    'C07': ['Inv_C07_', 'Prop_C07_', 'OnlyKnownFaults'], 'C08': ['Inv_C08_'], 'C09': ['OnlyKnownFaults', 'Inv_C15_replay'], 'C10': ['Inv_C10_'],
     'C12': ['Inv_C12_'], 'C13': ['Inv_C13_'], 'C14': ['Inv_C14_'], 'C15': ['Inv_C15_'],
 }
 
@@ -272,8 +272,11 @@ def mc_part(run: Run, prop: str, replay_max=None):
         replay_max = (250 if probing else 500) if run.tier == 'quick' else (3000 if probing else 6000)
     for name in MC_FOR[prop]:
         inst = instance(name, run.tier, random.Random(run.seed * 17 + len(name)))
-        big = name in ('minidraw', 'runout') or run.tier != 'quick'
-        emitk = '1' if not big else ('10' if run.tier == 'quick' else '100')
+        huge = name in ('minidraw', 'runout', 'miniflop')
+        if run.tier == 'quick':
+            emitk = '10' if name in ('minidraw', 'runout') else '1'
+        else:
+            emitk = '100' if huge else '10' if name in ('ministud', 'kuhn') else '1'
         r = run_instance(run, name, inst, emit=True, timeout=3000 if run.tier == 'quick' else 14000, emitk=emitk)
         mine = [v for v in r['violated'] if any(v.startswith(p) or p in v for p in OWN[prop])]
         for v in mine:
